@@ -187,6 +187,18 @@ BlsDevOK(e) ==
   /\ ~e.ok                                                 \* the bound alteration is caught by the aggregator
   /\ \A i \in 1..Len(e.blamed) : e.blamed[i] = e.dev       \* and only the deviator is blamed
 
+\* ---------------------------------------------------------------- an altered OT / VOLE message (C09)
+\* One wire message of VSOT, the SoftSpoken extension or the random VOLE over SoftSpoken was altered between two honest endpoints
+\* (a byte of a leaf, or two different elements of an array exchanged: every leaf of these protocols' messages feeds a consistency
+\* check - proofs of knowledge, challenge / response / opening digests, the extension's and the multiplier's checks). The run must
+\* not complete: some party aborts (or refuses to decode) at or after the altered message, nothing panics, no output is produced.
+OtDevOK(e) ==
+  /\ e.kind \in {"ot", "vole"} /\ e.op \in {"flip", "swap"}
+  /\ e.applied /\ e.changed                   \* the driver did alter the encoding (otherwise the line proves nothing)
+  /\ ~e.panic
+  /\ ~e.completed
+  /\ e.failedStage >= e.msg                   \* message k is decoded at stage k and consumed by round k + 1
+
 \* ----------------------------------------------------------------
 Check(e) ==
   CASE e.a = "hdr" -> TRUE
@@ -195,6 +207,7 @@ Check(e) ==
     [] e.a = "ot" -> OtOK(e)
     [] e.a = "vole" -> VoleOK(e)
     [] e.a = "blsdev" -> BlsDevOK(e)
+    [] e.a = "otdev" -> OtDevOK(e)
     [] OTHER -> FALSE
 CaseOK == l <= Len(Trace) => Check(Trace[l])
 =============================================================================
